@@ -155,6 +155,9 @@ func scenarios(tier string) []vlib.Scenario {
 	// a refused resume of one stream (response without alias) must not disturb the stream that holds alias 0
 	add(params{Kind: "conn", Close: "none", Refuse: "upU", F: 1})
 	add(params{Kind: "conn", Close: "none", Refuse: "upR", F: 1})
+	// the resume of one stream stays unanswered and the application closes that stream meanwhile
+	add(params{Kind: "conn", Close: "upU", Refuse: "unanswered:upU", F: 1})
+	add(params{Kind: "conn", Close: "upR", Refuse: "unanswered:upR", F: 1})
 	if tier == "thorough" {
 		for _, cl := range []string{"none", "upR", "upU", "down"} {
 			add(params{Kind: "conn", Close: cl, F: 2})
@@ -318,6 +321,19 @@ func (w *world) script() *sim.Script {
 				return message.ResultCodeStreamNotFound
 			}
 			return message.ResultCodeSucceeded
+		}
+	}
+	if strings.HasPrefix(w.p.Refuse, "unanswered:") {
+		s.UpResumeResult = nil
+		s.OnMessage = func(b *sim.Broker, c *sim.BConn, m message.Message) bool {
+			if r, ok := m.(*message.UpstreamResumeRequest); ok {
+				for _, u := range b.Ups {
+					if u.ID == r.StreamID && ((strings.HasSuffix(w.p.Refuse, "upR") && u.Ord == 0) || (strings.HasSuffix(w.p.Refuse, "upU") && u.Ord == 1)) {
+						return true // never answered
+					}
+				}
+			}
+			return false
 		}
 	}
 	w.rxn = map[string]int{}
@@ -501,7 +517,9 @@ func (w *world) connOracle(res *vsched.Result, v *vlib.Verdict) {
 		}
 	}
 	// reliable stream: everything accepted reaches the broker (unless reported closed); not disturbed by the others
-	if !kit.ReportedClosed(w.Ups[0].Closed) && w.B.Live() != nil && res.Outcome == vsched.Completed {
+	// (the stream whose resume the broker never answers and which the application then closes is the
+	// disturbed one, not the bystander: its Close fails and its unresumed points are not owed)
+	if !kit.ReportedClosed(w.Ups[0].Closed) && w.B.Live() != nil && res.Outcome == vsched.Completed && w.p.Refuse != "unanswered:upR" {
 		have := map[string]bool{}
 		for _, c := range w.B.Ups[0].Chunks {
 			for _, p := range c.Points {
@@ -526,7 +544,7 @@ func (w *world) connOracle(res *vsched.Result, v *vlib.Verdict) {
 			}
 		}
 		for _, u := range w.Ups {
-			if w.p.Refuse != "" && u.Name != w.p.Refuse && kit.ReportedClosed(u.Closed) && w.cuts <= 1 {
+			if w.p.Refuse != "" && !strings.HasSuffix(w.p.Refuse, u.Name) && kit.ReportedClosed(u.Closed) && w.cuts <= 1 {
 				v.Fail("C07.close-isolation", "closed-with-refused-"+w.p.Refuse, "%s was reported closed although only the resume of %s was refused", u.Name, w.p.Refuse)
 			}
 			if kit.ReportedClosed(u.Closed) && w.cuts == 0 {
